@@ -353,10 +353,19 @@ pub fn gen_real(src: &mut Src) -> u64 {
         }
         _ => {
             // next to a power of sixteen
-            let k = src.i64_in(-65, 62);
+            // (16^63 itself is what the largest eight-byte real, mantissa all ones, rounds to as a double:
+            // a library read from such a file holds it, and writing saturates back to that real)
+            let k = if src.prob(1, 10) { 63 } else { src.i64_in(-65, 63) };
             let base = ((4 * k + 1023) as u64) << 52;
-            let d = if k == -65 { src.i64_in(0, 3) } else { src.signed(3) };
-            (base as i64 + d) as u64
+            let d = if k == -65 {
+                src.i64_in(0, 3)
+            } else if k == 63 {
+                -src.i64_in(0, 3)
+            } else {
+                src.signed(3)
+            };
+            let sign = src.below(2) << 63;
+            (base as i64 + d) as u64 | sign
         }
     }
 }
